@@ -10,6 +10,7 @@ import (
 	"fmt"
 	"io"
 	"net"
+	"sort"
 	"strings"
 	"sync"
 	"testing"
@@ -46,9 +47,11 @@ type srv struct {
 	breakNxt string // "", "close", "garbage", "denied"
 	sids     []string
 	log      []connLog
+	accepted int
 }
 
 type connLog struct {
+	seq       int    // order in which the server ACCEPTED the connections (records can complete out of order)
 	resumeSid string // "" = full handshake request
 	fullSid   string // session created by a completed full handshake
 	broke     string
@@ -96,11 +99,15 @@ func (s *srv) serve() {
 		if err != nil {
 			return
 		}
-		go s.handle(c)
+		s.mu.Lock()
+		s.accepted++
+		seq := s.accepted
+		s.mu.Unlock()
+		go s.handle(c, seq)
 	}
 }
 
-func (s *srv) handle(c net.Conn) {
+func (s *srv) handle(c net.Conn, seq int) {
 	defer c.Close()
 	_ = c.SetDeadline(time.Now().Add(5 * time.Second))
 	hdr := make([]byte, 5)
@@ -116,7 +123,7 @@ func (s *srv) handle(c net.Conn) {
 		return
 	}
 	resume, sid := parseRequest(body)
-	cl := connLog{}
+	cl := connLog{seq: seq}
 	if resume {
 		cl.resumeSid = sid
 	}
@@ -179,6 +186,7 @@ func (s *srv) takeLog() []connLog {
 	defer s.mu.Unlock()
 	l := s.log
 	s.log = nil
+	sort.Slice(l, func(i, j int) bool { return l[i].seq < l[j].seq })
 	return l
 }
 
@@ -411,6 +419,7 @@ func runCase(c Case) (string, stats) {
 			}
 			time.Sleep(5 * time.Millisecond)
 			logs = append(logs, s.takeLog()...)
+			sort.Slice(logs, func(i, j int) bool { return logs[i].seq < logs[j].seq })
 			for _, x := range servers {
 				if x != s {
 					if l := x.takeLog(); len(l) > 0 {
